@@ -14,7 +14,7 @@
 (*     sessMeters, sliceMeters]  (sets of records, see harness e2e/up4.go) *)
 (* c: [slice, qfiTc (sequence of [qfi, tc]), defaultTc, n3, n3len,         *)
 (*     uePoolNet, uePoolLen]                                               *)
-(* Envelope (DESIGN A.4, checked by Up4Envelope): every live session has   *)
+(* Envelope (DESIGN 11.4, checked by Up4Envelope): every live session has   *)
 (* downlink PDRs with one common non-zero UE address; per direction the    *)
 (* application filters of a session are pairwise different; the downlink   *)
 (* PDRs of a session agree on buffering and tunnel; a PDR has at most one  *)
